@@ -332,6 +332,15 @@ func methodParamsJSON(r *Rng, method string, p *Problem) J {
 	case "aspectEliminationHeuristic":
 		fn, par := levelsJSON(r, p, true)
 		mp := J{"function": fn, "params": par, "randomSeed": r.Intn(1000), "weights": weightsJSON(r, cids, r.chance(0.8) || len(cids) > 8)}
+		if r.chance(0.1) && len(cids) >= 2 && len(cids) <= 8 {
+			// pairwise distinct weights that are almost equal: the examination order is still the strict order of the
+			// weights (no tolerance), whatever order the criteria are listed in
+			w := J{}
+			for i, j := range r.Perm(len(cids)) {
+				w[cids[i]] = 0.5 + float64(j)*5e-7
+			}
+			mp["weights"] = w
+		}
 		if r.chance(0.4) {
 			mp["randomAlternativesOrdering"] = true
 		}
